@@ -12,7 +12,7 @@ from ..runner import Entry, differential
 from . import c20_translate
 from . import c20_seq
 
-PRE = "From EsVerif.Common Require Import Base.\nFrom EsVerif.C20 Require Import Model Model2 Spec Exec.\n"
+PRE = "From EsVerif.Common Require Import Base.\nFrom EsVerif.C20 Require Import Model Model2 Spec Meter Exec.\n"
 
 
 def cpairs(l):
@@ -368,27 +368,62 @@ class FormatInterval(Entry):
             for n in (0, 1, 5, 6):
                 for tot in (None, 0, 1, 5, 6, -2):
                     cs.append({"what": "meter", "n": n, "total": tot, "family": "meter/grid"})
+                    for el in (-1.5, 0.0, 1e-9, 2.5, 7200.0):
+                        cs.append({"what": "meter_raises", "n": n, "total": tot, "elapsed": el, "family": "meter/elapsed grid"})
+            for strs in (["abcd", "xy", "", "pqrstu", "z"], ["", ""], ["same", "same", "sam"], ["a" * 30, "b", "c" * 31, ""]):
+                cs.append({"what": "status", "strings": strs, "family": "status/fixed"})
         for _ in range(ctx.n(40, 400)):
             cs.append({"what": "interval", "t": r.choice([r.randrange(0, 4000), r.randrange(0, 10**6), r.uniform(0, 5000)]),
                        "family": "interval/random"})
             cs.append({"what": "meter", "n": r.randrange(0, 50), "total": r.choice([None, r.randrange(-5, 60)]),
                        "family": "meter/random"})
+            cs.append({"what": "meter_raises", "n": r.choice([0, 0, r.randrange(0, 50)]), "total": r.choice([None, r.randrange(-5, 60)]),
+                       "elapsed": r.choice([0.0, -r.random(), r.random() * 100, 1e-300]), "family": "meter/elapsed random"})
+            cs.append({"what": "status", "strings": ["".join(r.choice("abc#-| 0123/%") for _ in range(r.randrange(0, 25)))
+                                                     for _ in range(r.randrange(1, 7))], "family": "status/random"})
         return cs
 
     def impl(self, c):
         import esutil.pbar as pb
         if c["what"] == "interval":
             return core.guarded(lambda: [int(x) for x in pb.format_interval(c["t"]).split(":")])
+        if c["what"] == "meter_raises":
+            try:
+                pb.format_meter(c["n"], c["total"], c["elapsed"], n_bars=5)
+                return ("ok", None)
+            except ZeroDivisionError:
+                return ("err", "ZeroDivisionError")
+            except Exception as e:  # noqa
+                return ("err", type(e).__name__)
+        if c["what"] == "status":
+            def f():
+                buf = io.StringIO()
+                sp = pb.StatusPrinter(buf)
+                for s_ in c["strings"]:
+                    sp.print_status(s_)
+                return buf.getvalue()
+            return core.guarded(f)
         return core.guarded(lambda: parse_meters(pb.format_meter(c["n"], c["total"], 0, n_bars=7), ""))
 
     def term(self, c, out):
+        if c["what"] == "meter_raises":
+            el = "SZero" if c["elapsed"] == 0 else ("SPos" if c["elapsed"] > 0 else "SNeg")
+            raised = "0" if out[0] == "ok" else ("1" if out[1] == "ZeroDivisionError" else "2")
+            return "v_meter_raises %s %s %s %s" % (cz(c["n"]), copt(c["total"]), el, raised)
+        if c["what"] == "status":
+            codes = lambda t: clist([ord(ch) for ch in t])    # noqa
+            if out[0] != "ok" or not out[1].startswith("\r") and c["strings"]:
+                return "v_status [] [[0]]"
+            segs = out[1].split("\r")[1:]
+            return "v_status [%s] [%s]" % ("; ".join(codes(t) for t in c["strings"]), "; ".join(codes(t) for t in segs))
         if c["what"] == "interval":
             return "v_format_interval %s %s" % (cz(int(c["t"])), clist(out[1]) if out[0] == "ok" else "[(-1)%Z]")
         shown = out[1][0][1] if out[0] == "ok" and len(out[1]) == 1 and out[1][0][0] == c["n"] else -99
         return "v_meter_total %s %s %s" % (cz(c["n"]), copt(c["total"]), copt(shown))
 
     def nontrivial(self, c, out):
-        return (c["what"] == "interval" and c["t"] >= 60) or (c["what"] == "meter" and c["total"] is not None)
+        return (c["what"] == "interval" and c["t"] >= 60) or (c["what"] in ("meter", "meter_raises") and c["total"] is not None) \
+            or (c["what"] == "status" and len(c["strings"]) >= 2)
 
 
 class Nested(Entry):
@@ -801,6 +836,8 @@ def _lists(l):
 def step_term(rec):
     """the verdict term of one call of a history (the same verdict functions as the single-call entries)"""
     op, i, o = rec["op"], rec["in"], rec["out"]
+    if op == "results_unchanged":          # theorem C20_results_unchanged_by_later_calls, observed on the real objects
+        return "verdict %s true" % cbool(all(o))
     if op == "quicksort":
         return "v_quicksort %s %s" % (clist(i["data"]), cres(o, clist))
     if op == "quicksort_keyvalue":
@@ -848,6 +885,9 @@ class Sequence(Entry):
         recs = c20_seq.run_history(json.loads(json.dumps(c["steps"])))
         fr = _fresh()
         for rec in recs:
+            if rec["op"] == "results_unchanged":
+                rec["same_as_alone"] = True
+                continue
             rec["alone"] = fr.call(rec["op"], rec["in"])
             rec["same_as_alone"] = c20_seq.canon(rec["alone"]) == c20_seq.canon(json.loads(json.dumps(rec["out"])))
             if rec["same_as_alone"]:
@@ -882,8 +922,14 @@ TRUSTED = [
     "complete in any order, one raise loses its whole chunk, results and the first raise are retrieved in submission order), numpy "
     "slicing/cumsum, time.time() (monotone; the meter schedule is compared exactly only for mininterval=0), the float formatting of "
     "the meter (pinned by text, not modelled)",
-    "python harness (harness/props/C20.py): generators, drivers, parser of the meter text, literal printers; coqc evaluating Exec.v "
-    "verdict terms",
+    "history model C20/History.v (heap of objects; effects computed from argument contents only): the real objects are observed "
+    "through the histories of entry `sequence` (each call also made alone in a fresh process; every retained result re-read at the "
+    "end of the history); aliasing of splitarray's chunks with an ndarray argument (views) is not modelled",
+    "format_meter's float branch: only its divisions (regenerated with their path conditions, elapsed through its sign) are "
+    "modelled; string formatting of finite floats is assumed not to raise; numpy fixed-width integer arguments are outside the "
+    "statement (python ints): inside their range they are exercised by the histories, isplit(np.uint8(200), 300) raises OverflowError",
+    "python harness (harness/props/C20.py, c20_seq.py): generators, drivers, parser of the meter text, literal printers; coqc "
+    "evaluating Exec.v verdict terms",
 ]
 
 
@@ -898,6 +944,12 @@ def regenerate(ctx):
                              "Properties.v are re-checked against it")
         return True
     except Exception as e:  # noqa  (Untranslatable, SyntaxError, OSError)
+        # the text on disk may stem from another (mutated) tree: fall back to the last text whose proofs were checked
+        gen = os.path.join(core.COQDIR, c20_translate.GEN_REL)
+        if os.path.exists(gen + ".good") and open(gen + ".good").read() != open(gen).read():
+            tmp = gen + ".tmp.%d" % os.getpid()
+            open(tmp, "w").write(open(gen + ".good").read())
+            os.replace(tmp, gen)
         ctx.obligation("C20/Gen.v regenerated from esutil/algorithm.py, numpy_util.py, pbar.py", False, str(e))
         ctx.violation("translation of the anchored functions failed (fail closed): %s" % str(e)[:300],
                       {"kind": "translation", "error": str(e),
@@ -964,6 +1016,10 @@ def run(ctx, replay=None):
     ctx.trusted = TRUSTED
     regenerated = regenerate(ctx)
     built = core.proof_step(ctx, "C20", core.ALLOW_DISCRETE)
+    if built and regenerated:
+        gen = os.path.join(core.COQDIR, c20_translate.GEN_REL)
+        if not os.path.exists(gen + ".good") or open(gen + ".good").read() != open(gen).read():
+            open(gen + ".good", "w").write(open(gen).read())
     if not built:
         # Tie.v / Properties.v no longer hold for this source text.  Model, Spec and Exec do not depend on Gen.v: keep
         # looking for a failing input, in the regenerated text (inside Coq) and on the real code (differential)
